@@ -71,19 +71,41 @@ def run(prog, tier, extra=None):
 
     # R2
     closures = [b for b in prog.all_bodies() if b.path.startswith(BLK + "generate_lite_block::{closure") and b.path.count("{closure") == 1]
-    chooser = None
-    for b in closures:
-        # the chooser builds a Transaction aggregate (the placeholder)
-        for blk in b.blocks:
+
+    def builds_placeholder(body):
+        """blocks of `body` in which a Transaction value is put together field by field (the placeholder)"""
+        out = []
+        bch = None
+        for bb, blk in enumerate(body.blocks):
             for st in blk["s"]:
                 if st[0] == "=" and st[2][0] == "agg" and st[2][1][0] == "adt" and st[2][1][1].endswith("transaction::Transaction"):
-                    chooser = b
+                    names = st[2][1][4]
+                    bch = bch or Chaser(body)
+                    for i, op in enumerate(st[2][2]):
+                        if i < len(names) and names[i] == "transaction_type":
+                            v = strip(bch.origin(op))
+                            if (v[0] == "agg" and v[1][0] == "adt" and v[1][2] == "SPV") or (v[0] == "const" and "SPV" in (v[2] or "")):
+                                out.append(bb)
+        return out
+    chooser = None
+    builder = None          # the body that contains the placeholder aggregate: the chooser itself or a helper it calls
+    placeholder_blocks = []
+    for b in closures:
+        if builds_placeholder(b):
+            chooser, builder, placeholder_blocks = b, b, builds_placeholder(b)
+    if chooser is None:
+        # the literal may have been moved into a private helper (`Block::create_spv_placeholder(tx)`)
+        for b in closures:
+            for bb, t in b.calls():
+                h = prog.bodies.get(t.get("res") or t.get("callee") or "")
+                if h is not None and not h.is_promoted and h.ty(0)["s"].endswith("transaction::Transaction") and builds_placeholder(h):
+                    chooser, builder = b, h
+                    placeholder_blocks.append(bb)
     if chooser is None:
         res.add(Finding(R2, "C18.retention|no-chooser", "generate_lite_block has no closure that builds the placeholder transaction (anchor moved?)", lb.loc(0)))
     else:
         cch = Chaser(chooser)
-        placeholder = [bb for bb, blk in enumerate(chooser.blocks) for st in blk["s"]
-                       if st[0] == "=" and st[2][0] == "agg" and st[2][1][0] == "adt" and st[2][1][1].endswith("transaction::Transaction")]
+        placeholder = placeholder_blocks
 
         def any_over(field):
             def pred(e):
@@ -152,9 +174,9 @@ def run(prog, tier, extra=None):
     wire = {f.split(".")[0] for f, w in cd.writer_table(prog.body(TXP + "serialize_for_net_with_hop")) if f}
     if not spv_reads:
         res.not_decided.append("C18.placeholder-leaf: generate_hash_for_signature has no field-derived branch (placeholders recomputed some other way)")
-    elif chooser is not None:
-        cch4 = Chaser(chooser)
-        for blk in chooser.blocks:
+    elif builder is not None:
+        cch4 = Chaser(builder)
+        for blk in builder.blocks:
             for st in blk["s"]:
                 if st[0] == "=" and st[2][0] == "agg" and st[2][1][0] == "adt" and st[2][1][1].endswith("transaction::Transaction"):
                     names = st[2][1][4]
